@@ -8,7 +8,11 @@ correspond: the REAL classes of sigpy/alg.py, executed update by update
   * over float64 / complex128 (l1 prox, complex data through the real embedding) — compared at 1e-9 with the
     model run on the same (exactly converted) inputs, square roots by the model's own 1e-20 Newton root;
   plus identity of the caller's arrays (`alg.x is x`, `alg.u is u`) after every update.
-search: oracles written from the property statement, on the real code in floats (see `ORACLES`).
+search: oracles written from the property statement, on the real code in floats (see `ORACLES`): descent and
+  rates, saddle points stay fixed, Fejér monotonicity for scalar AND array steps (the hypotheses of
+  `pdhg_fejer_diag_monotone` — positive steps, |Sigma^(1/2) A T^(1/2)| <= 1 — are checked on every instance it
+  runs on, and exactly, via `metricPSD_scalar` / `metricPSD_abs_sums`, on every PDHG case of the correspondence),
+  the one-step inequality D_k + R_(k-1) <= D_(k-1) of `pdhg_fejer_run_diag`, convergence.
 """
 import json
 import math
@@ -29,6 +33,11 @@ THEOREMS = ["SigpyVerif.C13." + t for t in [
     "gmStep_x_isProx", "ista_step_ineq", "ista_descent", "ista_rate", "t_rule_ok", "t_rule_growth",
     "fista_lyapunov", "fista_invariants", "fista_rate", "pdhg_fixed_point_iff_saddle", "pdhg_fejer",
     "pdhg_fejer_monotone", "pdhg_accel_steps_primal", "pdhg_accel_steps_dual", "pdhg_accel_run_primal",
+    # array-valued (diagonal) steps and the 1/N residual rate
+    "StepOp.scalar_pos", "StepOp.Pos.smul", "StepOp.Pos.div", "StepOp.diag_pos", "isProxW_scalar", "isProxW_unique",
+    "metricPSD_scalar", "metricPSD_pock_chambolle", "metricPSD_abs_sums", "matOp_adjoint",
+    "pdhg_fixed_point_iff_saddle_diag", "pdhg_fejer_diag", "pdhg_fejer_diag_monotone", "pdhg_fejer_run_diag",
+    "pdhg_residual_rate_partial",
 ]]
 
 
@@ -462,6 +471,45 @@ def canon(c):
     return json.dumps(c, sort_keys=True)
 
 
+# hypotheses of pdhg_fejer_diag_monotone / pdhg_residual_rate_partial on the instances this check uses:
+# every step entry positive (StepOp.Pos for StepOp.diag / StepOp.scalar) and the metric condition (MetricPSD)
+HYP = dict(checked=0, bad=[])
+
+
+def hyp_exact(c):
+    """correspondence case, exact rationals.  scalar/scalar: tau*sigma*|A|_F^2 <= 1 (metricPSD_scalar with
+    L = |A|_F); an array on either side: tau_j * sum_i |A_ij| <= 1 and sigma_i * sum_j |A_ij| <= 1
+    (metricPSD_abs_sums; a scalar is the constant array)."""
+    m, n = c["m"], c["n"]
+    A = [[F(v) for v in c["A"][i * n:(i + 1) * n]] for i in range(m)]
+    tau = [F(c["tau"][1])] * n if c["tau"][0] == "s" else [F(v) for v in c["tau"][1]]
+    sig = [F(c["sigma"][1])] * m if c["sigma"][0] == "s" else [F(v) for v in c["sigma"][1]]
+    if len(tau) != n or len(sig) != m or not all(v > 0 for v in tau + sig):
+        return False
+    if c["tau"][0] == "s" and c["sigma"][0] == "s":
+        nrm = frob2(A)
+        if c["mode"] == "complex":
+            nrm += sum(F(v) ** 2 for v in c["Ai"])
+        return tau[0] * sig[0] * nrm <= 1
+    if c["mode"] == "complex":
+        return False
+    return all(tau[j] * sum(abs(A[i][j]) for i in range(m)) <= 1 for j in range(n)) and \
+        all(sig[i] * sum(abs(A[i][j]) for j in range(n)) <= 1 for i in range(m))
+
+
+def hyp_float(A, tw, sw):
+    """oracle instance (floats): positivity and |Sigma^(1/2) A T^(1/2)|_2 <= 1 (+1e-9 rounding)"""
+    if not (np.all(tw > 0) and np.all(sw > 0)):
+        return False
+    return float(np.linalg.norm(np.sqrt(sw)[:, None] * A * np.sqrt(tw)[None, :], 2)) <= 1 + 1e-9
+
+
+def hyp_note(ok, what):
+    HYP["checked"] += 1
+    if not ok and len(HYP["bad"]) < 5:
+        HYP["bad"].append(what)
+
+
 def _stream(ctx, cases, stream):
     impls, lines = [], []
     for c in cases:
@@ -478,6 +526,8 @@ def _stream(ctx, cases, stream):
         tag = "%s:%s:%s" % (c["kind"], c["mode"], ("accel" if c.get("accel") else "plain") if c["kind"] == "gm"
                              else ("gp" if F(c["gp"]) > 0 else "gd" if F(c["gd"]) > 0 else "const") + ":" + c["tau"][0] + c["sigma"][0])
         ctx.count(tag)
+        if c["kind"] == "pd":
+            hyp_note(hyp_exact(c), canon(c)[:300])
         ctx.case(canon(c), sample=dict(line=ln[:240], reply=r[:160]) if ctx.evaluations % 23 == 0 else None)
         diff = impl if isinstance(impl, str) else compare(c, impl, model)
         if diff is not None:
@@ -496,14 +546,21 @@ def correspond(ctx):
         "numpy object-array arithmetic (+,-,*,/,@, clip, copyto) applies the scalar operations elementwise",
         "the statement order of the two _update bodies and the if/elif/else conditions of the step-size block are "
         "pinned by the translator plugin and validated by the correspondence, not proved",
-        "convergence of the PDHG iterates (with/without acceleration) and the Fejér property for array-valued steps "
-        "are validated by the search oracle only",
+        "convergence of the PDHG iterates to the minimiser itself (with/without acceleration) is validated by the search "
+        "oracle only (proved: Fejér monotonicity for scalar and array steps and the 1/N rate of the update size, "
+        "pdhg_residual_rate_partial)",
+        "array steps enter the theorems as the operator they act as (StepOp: v -> tau*v elementwise, v -> v/tau) and "
+        "the prox with an array step through its characterisation in the tau^-1-weighted inner product (IsProxW); that "
+        "sigpy.prox maps called with an array step satisfy it is C11's subject / the correspondence's",
     ]
     nq = dict(quick=(60, 40, 24), thorough=(500, 300, 200))[ctx.tier]
     for mode, n in zip(("exact", "float", "complex"), nq):
         cases = [gen_case(ctx.rng, mode) for _ in range(n)]
         bad = _stream(ctx, cases, mode)
         ctx.oblige("correspondence:C13." + mode, "correspondence", bad == 0, "%d disagreements" % bad)
+    ctx.oblige("hypotheses:C13.pdhg_fejer_diag.correspondence", "correspondence", not HYP["bad"],
+               "step positivity (StepOp.Pos) and the metric condition (MetricPSD: metricPSD_scalar / metricPSD_abs_sums) "
+               "hold exactly on %d PDHG cases of the correspondence; failing: %s" % (HYP["checked"], HYP["bad"]))
     ctx.traces = ctx.evaluations
 
 
@@ -715,6 +772,13 @@ def oracle_pd(ctx, P, x0, u0, tau, sigma, gp, gd, K, what, origin):
     Dprev = None
     tw = tau0 if isinstance(tau0, np.ndarray) else np.full(n, tau0)
     sw = sig0 if isinstance(sig0, np.ndarray) else np.full(m, sig0)
+    if what == "fejer":
+        # the domain of pdhg_fejer_diag_monotone: positive steps, PSD metric — checked on this very instance
+        okh = hyp_float(A, tw, sw)
+        hyp_note(okh, "oracle fejer: tau=%s sigma=%s" % (tw.tolist(), sw.tolist()))
+        ctx.count("oracle:pd:fejer:hypotheses-%s" % ("hold" if okh else "FAIL"))
+        if not okh:
+            return True
     tmin, smin = float(np.min(tw)), float(np.min(sw))
     nx0, nu0 = float(np.linalg.norm(x0 - xs)) ** 2, float(np.linalg.norm(u0 - us)) ** 2
     e0 = nx0 / tmin ** 2 + nu0 / (tmin * smin)      # |x0-x*|²/τ0² + |u0-u*|²/(τ0σ0)
@@ -757,7 +821,16 @@ def oracle_pd(ctx, P, x0, u0, tau, sigma, gp, gd, K, what, origin):
                          case, observed="update %d: D=%.17g > previous %.17g" % (k, D, Dprev), expected="non-increasing",
                          origin=origin)
                 return False
-            Dprev = D
+            if Dprev is not None:
+                # pdhg_fejer_run_diag: D_k + R_{k-1} <= D_{k-1}, R the size of the previous update in the same metric
+                mx, mu = x_before - xprev, a.u - uprev
+                R = weighted(mx, tw) - 2 * float(np.vdot(mu, A @ mx).real) + weighted(mu, sw)
+                if D + R > Dprev + 1e-10 * (1 + abs(Dprev)):
+                    ctx.fail("C13:pd:fejer-step", "one-step Fejér inequality D_k + R_(k-1) <= D_(k-1) violated (constant steps)",
+                             case, observed="update %d: D=%.17g R=%.17g previous D=%.17g" % (k, D, R, Dprev),
+                             expected="D + R <= previous D", origin=origin)
+                    return False
+            Dprev, xprev, uprev = D, x_before, a.u.copy()
     if what == "converge" and gp == 0 and gd == 0:
         err = max(float(np.linalg.norm(a.x - xs)), float(np.linalg.norm(a.u - us)))
         if not err <= P["conv_tol"] * scale:
@@ -907,6 +980,17 @@ def oracle_on_case(ctx, c, origin):
 def search(ctx, budget):
     warm_up()
     rng = ctx.rng
+    del HYP["bad"][:]
+    HYP["checked"] = 0
+    try:
+        _search(ctx, budget, rng)
+    finally:
+        ctx.oblige("hypotheses:C13.pdhg_fejer_diag.oracle", "search", not HYP["bad"],
+                   "step positivity and |Sigma^(1/2) A T^(1/2)| <= 1 hold on the %d instances the Fejér oracle ran on; "
+                   "failing: %s" % (HYP["checked"], HYP["bad"]))
+
+
+def _search(ctx, budget, rng):
     for d in ctx.disagreements[:40]:
         for _ in range(3):
             oracle_on_case(ctx, d["case"], "disagreement")
